@@ -1,26 +1,38 @@
 import OmplModel.Proofs.NNLinear
 import OmplModel.Proofs.NNGnat
 import OmplModel.Proofs.NNGnatExact
+import OmplModel.Proofs.NNGnatOps
 import Mathlib.Algebra.Order.Ring.Int
 /-!
 C10 — nearest-neighbour structures answer exactly like exhaustive search.
 
-Property theorems only (helpers: `Proofs/NNLinear.lean`, `Proofs/NNGnat.lean`).
+Property theorems only (helpers: `Proofs/NNLinear.lean`, `Proofs/NNGnat.lean`, `Proofs/NNGnatQuery.lean`,
+`Proofs/NNGnatExact.lean`, `Proofs/NNGnatOps.lean`).
 
-Proved in full: Linear (`linear_exact`, `linear_nearestK_dists`, `linear_size_list_abs`,
-`linear_remove_result`) and SqrtApprox (`sqrt_member`, `sqrt_size_list_abs`).
+Proved in full:
+* Linear (`linear_exact`, `linear_nearestK_dists`, `linear_size_list_abs`, `linear_remove_result`),
+  SqrtApprox (`sqrt_member`, `sqrt_size_list_abs`);
+* GNAT queries: `nearestK_exact`, `nearestR_exact`, `nearest_exact` — `GnatInv` (the executable
+  `Node.inv` evaluated on every dump of the real tree) implies that the model's query code returns
+  exactly the brute-force answer, for every metric on a linearly ordered commutative ring and for
+  **every** child visiting order; the fuel of the model's loops always suffices
+  (`gnat_child_orders_are_permutations` shows the two variants' orders are admitted).
 
-GNAT is `_partial`: the soundness of every pruning test of the query code is proved for every
-metric on a linearly ordered commutative ring under the executable invariant `Node.inv`
-(`gnat_sibling_prune_sound_partial`, `gnat_radius_prune_sound_partial`, `gnat_inv_descends_partial`),
-and the leaf scan of the radius query is exact (`gnat_leaf_scanR_exact_partial`).
+GNAT operations (`Model/NNGnatOps.lean`, compared in lock-step with the real code on every run) —
+`_partial`:
+* `add_preserves_inv_partial`: `Node::add` (descent, `updateRange`/`updateRadius`, leaf push) preserves
+  `GnatInv`, keeps every pivot and stores only the old copies plus the new one — unconditionally when
+  the leaf is not split in place, and given `SplitSpec` (= the statement of `split_establishes_inv`
+  below) when it is;
+* `remove_preserves_inv_partial`: marking a copy that is not a pivot preserves `GnatInv`.
 Not proved (checked on every dump of the real tree by checks/c10.py instead, and said so there):
 
-  theorem nearestK_exact : Node.inv dist g.removed t = true → IsMetric dist →
-      IsKNearest (dist q ·) k (liveOf g.removed t.elems |>.map (·.val))
-                 ((g.nearestK dist eps rotate q k).1.map (·.2.val))        -- for every child order
-  theorem nearestR_exact : … IsRNearest …
-  theorem add_preserves_inv / split_establishes_inv / remove_preserves_inv / rebuild_abs
+  theorem split_establishes_inv : KCentersRel ctx → SplitSpec ctx []
+      -- i.e. for a leaf n with un-removed pivot: (splitNode ctx fuel n us).1.inv ∧ same pivot ∧ same copies
+  theorem remove_preserves_inv : g.WF dist → ids distinct → ((g.remove ctx ord x us).1.1).WF dist
+      -- missing: `isPivot = false` ⟹ the copy found is not a pivot; rebuild = build (needs split)
+  theorem rebuild_abs : (g.rebuild ctx us).1.list ~ g.list ∧ WF
+  theorem gnat_size_list_abs : ∀ ops, (run ops).list ~ specRun ops ∧ (run ops).WF dist
 -/
 namespace OmplModel.NN
 
@@ -110,13 +122,6 @@ theorem sqrt_size_list_abs [BEq α] [LawfulBEq α] (ops : List (Op α)) :
 
 section Gnat
 variable [CommRing D] [LinearOrder D] [IsStrictOrderedRing D]
-
-/-- the state invariant of the whole structure: `GnatInv` on the tree, and `size_` is the number of
-non-removed stored copies. -/
-def Gnat.WF (dist : α → α → D) (g : Gnat α D) : Prop :=
-  match g.tree with
-  | none => g.size = 0
-  | some t => t.inv dist g.removed = true ∧ g.size = (liveOf g.removed t.elems).length
 
 /-- every child order the two variants can use is admitted by the theorems below. -/
 theorem gnat_child_orders_are_permutations (rotate : Bool) (sz off : Nat) :
@@ -244,27 +249,6 @@ theorem nearest_exact [BEq α] [LawfulBEq α] {dist : α → α → D} (hm : IsM
 invariant, `|a-b|` on ℤ is a metric, the theorems apply to the driver's instance, and the model's
 queries on that tree give the expected answers. -/
 
-def l1 (a b : Int × Int) : Int := |a.1 - b.1| + |a.2 - b.2|
-
-theorem l1_metric : IsMetric l1 ∧ ∀ a, l1 a a = 0 := by
-  refine ⟨⟨fun a b => ?_, fun a b c => ?_⟩, fun a => by simp [l1]⟩
-  · simp only [l1]; rw [abs_sub_comm a.1, abs_sub_comm a.2]
-  · simp only [l1]
-    have h1 := abs_sub_le a.1 b.1 c.1
-    have h2 := abs_sub_le a.2 b.2 c.2
-    omega
-
-def sampleTree : Node (Int × Int) Int :=
-  .mk ⟨0, (1, 2)⟩ 3 none [none, none, none] []
-    [ .mk ⟨1, (9, 9)⟩ 2 (some (0, 0)) [some (0, 0), some (16, 18), some (7, 11)] [] [],
-      .mk ⟨2, (0, 0)⟩ 2 (some (0, 2)) [some (18, 18), some (0, 2), some (7, 11)] [⟨3, (1, 1)⟩] [],
-      .mk ⟨4, (3, 4)⟩ 2 (some (0, 4)) [some (11, 11), some (5, 7), some (0, 4)] [⟨5, (5, 6)⟩, ⟨6, (3, 4)⟩] [] ]
-
-def sampleGnat : Gnat (Int × Int) Int :=
-  { params := ⟨3, 2, 3, 2, 3, false⟩, tree := some sampleTree, size := 6, removed := [6], nextId := 7 }
-
-theorem sampleGnat_wf : sampleGnat.WF l1 := ⟨by decide, by decide⟩
-
 /-- the hypotheses of `nearestK_exact` are satisfiable, and its conclusion pins the answer down:
 3 of the 6 live copies, for both variants' child orders. -/
 example (rotate : Bool) : ((sampleGnat.nearestK l1 1 (childOrder rotate) (4, 4) 3).1.map Prod.snd).length = 3 :=
@@ -278,5 +262,56 @@ example : IsMetric (fun (a b : Int) => |a - b|) :=
   ⟨fun a b => abs_sub_comm a b, fun a b c => abs_sub_le a b c⟩
 
 end Gnat
+
+
+/-! ## GNAT operations (model of `Node::add` / `remove`; lock-step compared with the real code) -/
+
+section GnatOps
+
+/-- **`Node::add` preserves `GnatInv`.**  For every distance function (no metric law is needed: ranges
+and radii record distances that were actually computed), every tree satisfying the invariant and every
+new copy `x`: after the model's `Node::add` — descend to the first closest pivot, `updateRange` of every
+sibling, `updateRadius` of the chosen child, push into the leaf — the invariant holds again, the
+root pivot is unchanged, and the tree stores nothing but the old copies and `x`.
+Unconditional when the leaf is not split in place (`doSplit = false`: the two `rebuildDataStructure`
+branches, and every add that does not overflow a leaf — for those `insert … true = insert … false`);
+when the leaf is split it assumes `SplitSpec` (what `split_establishes_inv` would provide). -/
+theorem add_preserves_inv_partial {U : Type} [LinearOrder D] [OfNat D 0] (ctx : Ctx α D U) (removed : List Nat)
+    (doSplit : Bool) (hS : doSplit = true → SplitSpec ctx removed) (x : Elem α) (t : Node α D)
+    (ht : t.inv ctx.dist removed = true) (us : List U) :
+    (t.insert ctx doSplit x us).1.inv ctx.dist removed = true ∧
+    (t.insert ctx doSplit x us).1.pivot = t.pivot ∧
+    ∀ y ∈ (t.insert ctx doSplit x us).1.elems, y = x ∨ y ∈ t.elems := by
+  obtain ⟨h1, h2, h3⟩ := Node.insert_spec ctx removed doSplit hS x t.count t (Nat.le_refl _) ht us
+  refine ⟨h1, h2, ?_⟩
+  intro y hy
+  rw [Node.elems_eq, h2] at hy
+  rw [Node.elems_eq]
+  rcases List.mem_cons.mp hy with h | h
+  · exact Or.inr (by rw [h]; simp)
+  · rcases h3 y h with h | h
+    · exact Or.inl h
+    · exact Or.inr (List.mem_cons_of_mem _ h)
+
+/-- **`remove` of a non-pivot preserves `GnatInv`**: marking a stored copy whose id is not the id of
+a pivot keeps the invariant (it bounds the distances to *all* stored copies, removed ones included). -/
+theorem remove_preserves_inv_partial [LE D] [DecidableLE D] (dist : α → α → D) (removed : List Nat) (i : Nat)
+    (t : Node α D) (ht : t.inv dist removed = true) (hp : ∀ p ∈ t.pivots, p.id ≠ i) :
+    t.inv dist (i :: removed) = true :=
+  Node.inv_mark dist removed i t ht hp
+
+end GnatOps
+
+/-! non-vacuity of the operation theorems on the sample tree -/
+
+def sampleCtx : Ctx (Int × Int) Int Nat :=
+  { P := ⟨3, 2, 3, 2, 3, false⟩, dist := l1, eps := 1, pick := fun u n => u % n }
+
+example : ((sampleTree.insert sampleCtx false ⟨7, (8, 8)⟩ []).1.inv l1 [6] = true) :=
+  (add_preserves_inv_partial sampleCtx [6] false (by intro h; cases h) ⟨7, (8, 8)⟩ sampleTree (by decide) []).1
+example : (sampleTree.insert sampleCtx false ⟨7, (8, 8)⟩ ([] : List Nat)).1.elems.map (·.id) = [0, 1, 7, 2, 3, 4, 5, 6] := by
+  decide
+example : sampleTree.inv l1 [3, 6] = true :=
+  remove_preserves_inv_partial l1 [6] 3 sampleTree (by decide) (by decide)
 
 end OmplModel.NN
